@@ -264,6 +264,40 @@ def _task_edits(task):
     return t
 
 
+def _check_separate_objects(t: Tally):
+    """Two encodings built with the public constructors, nothing but the required arguments: they are two objects.  A context calibrator
+    attached to the first in place (its list extended, or created where there is none) does not reach the second - an integer decoded through
+    the second stays the integer."""
+    from space_packet_parser.packets import CCSDSPacket
+    from space_packet_parser.xtce import calibrators, comparisons, encodings
+    makers = {"Integer": lambda: encodings.IntegerDataEncoding(8, "unsigned"), "Float": lambda: encodings.FloatDataEncoding(32),
+              "Integer(kw)": lambda: encodings.IntegerDataEncoding(size_in_bits=16, encoding="twosComplement", byte_order="leastSignificantByteFirst")}
+    for name, mk in makers.items():
+        t.evals += 1
+        try:
+            first, second = mk(), mk()
+            cc = calibrators.ContextCalibrator([comparisons.Comparison("0", "P", operator=">=")],
+                                               calibrators.PolynomialCalibrator([calibrators.PolynomialCoefficient(100.0, 0), calibrators.PolynomialCoefficient(1.0, 1)]))
+            if first.context_calibrators is None:
+                first.context_calibrators = []
+            first.context_calibrators.append(cc)
+            third = mk()
+            import struct
+            data = struct.pack(">f", 2.5) if name == "Float" else bytes([3, 0])
+            got = []
+            for enc in (second, third):
+                pkt = CCSDSPacket(raw_data=data, P=__import__("space_packet_parser").common.IntParameter(1))
+                v = enc.parse_value(pkt)
+                got.append((type(v).__name__, float(v)))
+            want = [("FloatParameter", 2.5)] * 2 if name == "Float" else [("IntParameter", 3.0)] * 2
+            if got != want or second.context_calibrators or third.context_calibrators:
+                t.violation({"kind": "encodings-share-state", "class": name}, {"separate_objects": True, "class": name}, expected=want, observed=got,
+                            note="a context calibrator attached to one encoding object shows up in another encoding object built separately")
+        except Exception as e:  # noqa: BLE001
+            t.violation({"kind": "encodings-share-state", "class": name, "exc": type(e).__name__}, {"separate_objects": True, "class": name}, observed=repr(e)[:200])
+        t.nontrivial += 1
+
+
 def cold_probe():
     """Subprocess entry (fresh interpreter).  For every configuration the FIRST packet ever decoded with it in this process is one whose field
     is cut short (the decode may fail or be flagged: not judged); the packets after it are complete and must decode exactly.  Whatever the
@@ -341,6 +375,7 @@ def run(ctx):
     tasks.sort(key=lambda t: -(t["cfgs"][0][0] == "float") * 10 - len(t["cfgs"]))
     tally = fan_out(_task, tasks, jobs=ctx.jobs, seed=ctx.seed)
     tally.merge(fan_out(_task_edits, [{"offset": off} for off in (0, 3)], jobs=ctx.jobs, seed=ctx.seed))
+    _check_separate_objects(tally)
     _cold_start(tally)
     coverage = {
         "programs": tally.programs,
@@ -366,6 +401,10 @@ def replay(case):
         t = Tally()
         _cold_start(t)
         return next((v for v in t.violations if v["case"].get("packet") == case.get("packet")), None)
+    if case.get("separate_objects"):
+        t = Tally()
+        _check_separate_objects(t)
+        return next((v for v in t.violations if v["case"].get("class") == case.get("class")), None)
     if case.get("attr_edits"):
         t = _task_edits({"offset": case["offset"]})
         return next((v for v in t.violations if all(v["case"].get(k) == case.get(k) for k in ("old", "new", "order", "decoded_before_edit"))), None)
